@@ -81,9 +81,7 @@ def r1(run):
     # key agreement: the key tested here is the key process_frame stamps and the restart compaction reads
     stamped = set()
     for b in run.facts.bodies_under(HANDLER + "::process_frame"):
-        for c in b.calls():
-            if c.fn.startswith("serde_json::map::Map") and c.fn.endswith("::insert"):
-                stamped |= set(q.const_strs(c.arg(1)))
+        stamped |= set(k for (k, v, recv, c) in F.map_writes(b))
     compaction = set()
     for b in run.facts.bodies_under("xs::handlers::serve::serve"):
         for c in b.calls():
